@@ -8,10 +8,13 @@ package main
 import (
 	"bytes"
 	cryptorand "crypto/rand"
+	"encoding/base64"
 	"encoding/json"
 	"fmt"
+	"io"
 	"net/http"
 	"net/http/httptest"
+	"net/url"
 	"os"
 	"sort"
 	"strings"
@@ -49,7 +52,7 @@ func (r *recStore) rec(op, key string) {
 
 func (r *recStore) Get(key string, v interface{}) error { r.rec("r", key); return r.inner.Get(key, v) }
 func (r *recStore) Put(key string, v interface{}) error { r.rec("w", key); return r.inner.Put(key, v) }
-func (r *recStore) Delete(key string) error            { r.rec("w", key); return r.inner.Delete(key) }
+func (r *recStore) Delete(key string) error             { r.rec("w", key); return r.inner.Delete(key) }
 func (r *recStore) List(prefix string) ([]string, error) {
 	r.rec("r", prefix)
 	return r.inner.List(prefix)
@@ -79,39 +82,75 @@ func (c *Ctx) seedStore(st samlidp.Store) {
 	must(st.Put("/users/alice", &samlidp.User{Name: "alice"}))
 }
 
+type hcase struct {
+	prog, method, path string
+	body               []byte
+	cookie             string
+	ctype              string
+}
+
+// gatedBody blocks the first Read until released: the request is then stalled wherever its handler first reads the body
+type gatedBody struct {
+	r       io.Reader
+	gate    chan struct{}
+	reached chan struct{}
+	once    sync.Once
+}
+
+func (g *gatedBody) Read(p []byte) (int, error) {
+	g.once.Do(func() {
+		select {
+		case g.reached <- struct{}{}:
+		default:
+		}
+		<-g.gate
+	})
+	return g.r.Read(p)
+}
+func (g *gatedBody) Close() error { return nil }
+
+func serveReq(srv *samlidp.Server, hc hcase, body io.Reader) int {
+	req := httptest.NewRequest(hc.method, hc.path, body)
+	req.Host = "idp.example.com"
+	if hc.ctype != "" {
+		req.Header.Set("Content-Type", hc.ctype)
+	}
+	if hc.cookie != "" {
+		req.AddCookie(&http.Cookie{Name: "session", Value: hc.cookie})
+	}
+	rec := httptest.NewRecorder()
+	srv.ServeHTTP(rec, req)
+	return rec.Code
+}
+
 func (c *Ctx) genC20() {
 	now := baseTime
 	saml.TimeNow = func() time.Time { return now }
 	saml.RandReader = &detReader{c: c}
 	// (1) what each real handler does to the store is a subsequence of its extracted program
-	type hcase struct {
-		prog, method, path string
-		body               []byte
-		cookie             string
-	}
 	userJSON, _ := json.Marshal(map[string]interface{}{"email": "a@example.com"})
 	scJSON, _ := json.Marshal(map[string]interface{}{"service_provider": "https://spa.example.com/md"})
 	md := spMetadataXML("https://spa.example.com/md", true)
 	cases := []hcase{
-		{"Server.HandlePutUser", "PUT", "/users/bob", userJSON, ""},
-		{"Server.HandleGetUser", "GET", "/users/alice", nil, ""},
-		{"Server.HandleDeleteUser", "DELETE", "/users/bob", nil, ""},
-		{"Server.HandleListUsers", "GET", "/users/", nil, ""},
-		{"Server.HandlePutService", "PUT", "/services/svc1", md, ""},
-		{"Server.HandleGetService", "GET", "/services/svc1", nil, ""},
-		{"Server.HandleListServices", "GET", "/services/", nil, ""},
-		{"Server.HandlePutShortcut", "PUT", "/shortcuts/sc2", scJSON, ""},
-		{"Server.HandleGetShortcut", "GET", "/shortcuts/sc1", nil, ""},
-		{"Server.HandleListShortcuts", "GET", "/shortcuts/", nil, ""},
-		{"Server.HandleDeleteShortcut", "DELETE", "/shortcuts/sc2", nil, ""},
-		{"Server.HandleGetSession", "GET", "/sessions/sess1", nil, ""},
-		{"Server.HandleListSessions", "GET", "/sessions/", nil, ""},
-		{"Server.HandleLogin", "GET", "/login", nil, "sess1"},
-		{"Server.HandleIDPInitiated", "GET", "/login/sc1", nil, "sess1"},
-		{"handler /sso", "GET", "/sso?SAMLRequest=bm90IGRlZmxhdGU%3D", nil, "sess1"},
-		{"handler GET /metadata", "GET", "/metadata", nil, ""},
-		{"Server.HandleDeleteService", "DELETE", "/services/svc1", nil, ""},
-		{"Server.HandleDeleteSession", "DELETE", "/sessions/sess1", nil, ""},
+		{"Server.HandlePutUser", "PUT", "/users/bob", userJSON, "", ""},
+		{"Server.HandleGetUser", "GET", "/users/alice", nil, "", ""},
+		{"Server.HandleDeleteUser", "DELETE", "/users/bob", nil, "", ""},
+		{"Server.HandleListUsers", "GET", "/users/", nil, "", ""},
+		{"Server.HandlePutService", "PUT", "/services/svc1", md, "", ""},
+		{"Server.HandleGetService", "GET", "/services/svc1", nil, "", ""},
+		{"Server.HandleListServices", "GET", "/services/", nil, "", ""},
+		{"Server.HandlePutShortcut", "PUT", "/shortcuts/sc2", scJSON, "", ""},
+		{"Server.HandleGetShortcut", "GET", "/shortcuts/sc1", nil, "", ""},
+		{"Server.HandleListShortcuts", "GET", "/shortcuts/", nil, "", ""},
+		{"Server.HandleDeleteShortcut", "DELETE", "/shortcuts/sc2", nil, "", ""},
+		{"Server.HandleGetSession", "GET", "/sessions/sess1", nil, "", ""},
+		{"Server.HandleListSessions", "GET", "/sessions/", nil, "", ""},
+		{"Server.HandleLogin", "GET", "/login", nil, "sess1", ""},
+		{"Server.HandleIDPInitiated", "GET", "/login/sc1", nil, "sess1", ""},
+		{"handler /sso", "GET", "/sso?SAMLRequest=bm90IGRlZmxhdGU%3D", nil, "sess1", ""},
+		{"handler GET /metadata", "GET", "/metadata", nil, "", ""},
+		{"Server.HandleDeleteService", "DELETE", "/services/svc1", nil, "", ""},
+		{"Server.HandleDeleteSession", "DELETE", "/sessions/sess1", nil, "", ""},
 	}
 	rs := &recStore{inner: &samlidp.MemoryStore{}}
 	c.seedStore(rs.inner)
@@ -129,6 +168,8 @@ func (c *Ctx) genC20() {
 	}
 	// (2) the model's deadlock witness, replayed on the real server with a scheduling store
 	c.deadlockSchedule()
+	// (2b) the same schedule shape for every handler and every point at which it can be stalled
+	c.stallSchedules(cases)
 	// (3) linearizability of recorded concurrent store histories
 	rounds := 40
 	if !c.quick() {
@@ -196,6 +237,134 @@ func (c *Ctx) deadlockSchedule() {
 		}
 		c.count("c20-deadlock-schedule", res)
 		c.emitOneWay("deadlock-schedule", nil, res, orc)
+	}
+}
+
+// stallSchedules: every handler, stalled at every point where a client or the store can stall it (while it reads its
+// request body; inside each of its store calls), a registry writer started meanwhile, the handler then resumed. Every
+// request must complete — a reader that takes the registry lock twice, or a writer that keeps it across a store call
+// another request is inside of, does not. This is the model's deadlock witness shape (C20_deadlock_free) made generic.
+func (c *Ctx) stallSchedules(cases []hcase) {
+	saml.RandReader = cryptorand.Reader // requests run concurrently here; only completion is observed
+	defer func() { saml.RandReader = &detReader{c: c} }()
+	// a well-formed AuthnRequest from a registered service, delivered by POST (the body is read after routing)
+	iss := "https://spa.example.com/md"
+	ii := baseTime.UnixMilli()
+	v := "2.0"
+	ar := areq{ID: "id-stall", Issuer: &iss, Destination: idpRoot + "/sso", Version: &v, II: &ii}
+	form := url.Values{"SAMLRequest": {base64.StdEncoding.EncodeToString(ar.xml(0))}, "RelayState": {"rs"}}
+	cases = append(append([]hcase{}, cases...),
+		hcase{prog: "handler /sso", method: "POST", path: "/sso", body: []byte(form.Encode()), cookie: "sess1", ctype: "application/x-www-form-urlencoded"},
+		hcase{prog: "handler /sso", method: "POST", path: "/sso", body: []byte(form.Encode()), cookie: "", ctype: "application/x-www-form-urlencoded"},
+		hcase{prog: "Server.HandleLogin", method: "POST", path: "/login", body: []byte("user=alice&password=pw"), ctype: "application/x-www-form-urlencoded"})
+	writers := []hcase{
+		{prog: "Server.HandlePutService", method: "PUT", path: "/services/svcw", body: spMetadataXML("https://spw.example.com/md", true)},
+		{prog: "Server.HandleDeleteService", method: "DELETE", path: "/services/svc1"},
+	}
+	type trial struct {
+		h     hcase
+		w     hcase
+		point int // -1: the request body; k ≥ 0: the k-th store call of the handler
+	}
+	var trials []trial
+	fresh := func() (*recStore, *samlidp.Server) {
+		rs := &recStore{inner: &samlidp.MemoryStore{}}
+		c.seedStore(rs.inner)
+		srv := c.c20Server(rs)
+		// registered through the server so that the registry map knows the service too
+		serve(srv, "PUT", "/services/svc1", spMetadataXML("https://spa.example.com/md", true), "")
+		return rs, srv
+	}
+	for _, h := range cases {
+		rs, srv := fresh()
+		rs.mu.Lock()
+		rs.ops = nil
+		rs.mu.Unlock()
+		serveReq(srv, h, bytes.NewReader(h.body))
+		rs.mu.Lock()
+		n := len(rs.ops)
+		rs.mu.Unlock()
+		for _, w := range writers {
+			if h.body != nil {
+				trials = append(trials, trial{h, w, -1})
+			}
+			for k := 0; k < n; k++ {
+				trials = append(trials, trial{h, w, k})
+			}
+		}
+	}
+	results := make([]string, len(trials))
+	sem := make(chan struct{}, 16)
+	var wg sync.WaitGroup
+	for i, t := range trials {
+		wg.Add(1)
+		sem <- struct{}{}
+		go func(i int, t trial) {
+			defer wg.Done()
+			defer func() { <-sem }()
+			rs, srv := fresh()
+			resume := make(chan struct{})
+			reached := make(chan struct{}, 1)
+			var body io.Reader = bytes.NewReader(t.h.body)
+			if t.point < 0 {
+				body = &gatedBody{r: bytes.NewReader(t.h.body), gate: resume, reached: reached}
+			} else {
+				var mu sync.Mutex
+				seen, fired := 0, false
+				rs.mu.Lock()
+				rs.ops = nil
+				rs.pause = func(op, key string) {
+					mu.Lock()
+					hit := !fired && seen == t.point
+					seen++
+					if hit {
+						fired = true
+					}
+					mu.Unlock()
+					if hit {
+						reached <- struct{}{}
+						<-resume
+					}
+				}
+				rs.mu.Unlock()
+			}
+			doneA, doneB := make(chan int, 1), make(chan int, 1)
+			go func() { doneA <- serveReq(srv, t.h, body) }()
+			select {
+			case <-reached:
+			case <-time.After(2 * time.Second):
+			}
+			go func() { doneB <- serveReq(srv, t.w, bytes.NewReader(t.w.body)) }()
+			time.Sleep(120 * time.Millisecond) // let the writer reach (and, on a defective tree, queue at) the registry lock
+			close(resume)
+			res := "completed"
+			timeout := time.After(3 * time.Second)
+			for k := 0; k < 2; k++ {
+				select {
+				case <-doneA:
+				case <-doneB:
+				case <-timeout:
+					res = "deadlock"
+					k = 2
+				}
+			}
+			results[i] = res
+		}(i, t)
+	}
+	wg.Wait()
+	for i, t := range trials {
+		at := "while its body is being read"
+		if t.point >= 0 {
+			at = fmt.Sprintf("inside its store call #%d", t.point)
+		}
+		orc := ""
+		if results[i] == "deadlock" {
+			orc = fmt.Sprintf("key=deadlock:stalled-handler-vs-registry-writer requests did not complete within 3 s on the schedule: %s %s stalled %s, %s %s started, the first resumed",
+				t.h.method, t.h.path, at, t.w.method, t.w.path)
+		}
+		c.count("c20-stall-schedule", results[i])
+		c.count("c20-stall-point", map[bool]string{true: "body", false: "store-call"}[t.point < 0])
+		c.emitOneWay("stall-schedule", []string{encStr(t.h.method + " " + t.h.path), fmt.Sprint(t.point), encStr(t.w.method + " " + t.w.path)}, results[i], orc)
 	}
 }
 
